@@ -508,6 +508,34 @@ class Session:
             self.fire("boundary:jit-id")
         return tr
 
+    def run_vmapped_inputs(self, rep, fn, key_n, real, alt, const=()):
+        """stage:vmap-args: jax.vmap over keys AND inputs (arguments, constraint
+        values); the element in the session's slot has the session's own inputs,
+        the others have inputs drawn from the same types.  Returns that slice
+        (C23: the i-th slice equals the unbatched call on the i-th inputs)."""
+        B = max(2, rep.cfg.get("batch", 3))
+        slot = rep.cfg.get("slot", 0) % B
+        key = make_key(key_n)
+        ks = [make_key(key_n + 7919 * (j + 1)) for j in range(B)]
+        ks[slot] = key
+        keys = jnp.stack(ks)
+        try:
+            dyns = [real if j == slot else alt(j) for j in range(B)]
+            stacked = jtu.tree_map(lambda *xs: jnp.stack([jnp.asarray(x) for x in xs]), *dyns)
+        except Exception:
+            # inputs whose pytree structure depends on their values cannot be stacked
+            self.probe("vmap-args:unstackable")
+            out = jax.vmap(lambda k: fn(k, *const, *real))(keys)
+            return jtu.tree_map(lambda v: v[slot], out), "vmap"
+        self.fire("stage:vmap-args")
+        out = jax.vmap(lambda k, *b: fn(k, *const, *b))(keys, *stacked)
+        return jtu.tree_map(lambda v: v[slot], out), "vmap"
+
+    def alt_args(self, key_n, j):
+        import random
+
+        return self.jargs(__import__("sim.gen", fromlist=["x"]).sample_args(random.Random(key_n * 31 + j), self.node), "arr")
+
     def decoy_sibling(self, rep, i, key_n):
         """cache:decoy for closure roots: a second partial application of the same
         function object (other stored arguments) is used through the same GFI
@@ -580,7 +608,10 @@ class Session:
         ev = {"op": st["op"]}
         if st["op"] == "simulate":
             try:
-                tr, staged = self.run_staged(rep, perts, lambda k: gf.simulate(k, jargs), st["key"])
+                if "stage:vmap-args" in perts:
+                    tr, staged = self.run_vmapped_inputs(rep, lambda k, a: gf.simulate(k, a), st["key"], (self.jargs(args, "arr"),), lambda j: (self.alt_args(st["key"], j),))
+                else:
+                    tr, staged = self.run_staged(rep, perts, lambda k: gf.simulate(k, jargs), st["key"])
             except Exception as e:
                 self.viol("C04.simulate-crash", {"C04", "C01"} | self.pp | ({"C23"} if perts else set()), i, rep, "simulate raised %s: %s [perts %s]" % (type(e).__name__, str(e)[:300], perts), "crash")
                 return {"op": "simulate", "outcome": "crash"}
@@ -628,7 +659,19 @@ class Session:
             except Exception as e:
                 raise HarnessError("constraint build failed: %s: %s" % (type(e).__name__, e))
             try:
-                (tr, w), staged = self.run_staged(rep, perts, lambda k, c: gf.importance(k, c, jargs), st["key"], chm)
+                if "stage:vmap-args" in perts:
+                    import random
+
+                    from sim.texpr import support_value
+
+                    def alt(j):
+                        r = random.Random(st["key"] * 17 + j)
+                        cj = [[a, support_value(r, self.cons[tuple(a)])] for a, _ in cons]
+                        return (build_chm(cj, self.cons, st.get("build", "set"), wrap, falses), self.alt_args(st["key"], j))
+
+                    (tr, w), staged = self.run_vmapped_inputs(rep, lambda k, c, a: gf.importance(k, c, a), st["key"], (chm, self.jargs(args, "arr")), alt)
+                else:
+                    (tr, w), staged = self.run_staged(rep, perts, lambda k, c: gf.importance(k, c, jargs), st["key"], chm)
             except Exception as e:
                 self.viol("C03.importance-crash", {"C03"} | self.pp | ({"C23"} if any(p.startswith(("stage", "cache")) for p in perts) else set()) | ({"C35"} if wrap or falses else set()), i, rep, "importance raised %s: %s [perts %s build %s]" % (type(e).__name__, str(e)[:300], perts, st.get("build")), "crash")
                 return {"op": "importance", "outcome": "crash"}
@@ -790,6 +833,8 @@ class Session:
                     nt, w, rd, bc = gf.update(k, t, c, ad)
                     return nt, w, rd, Update(bc)
 
+            if "stage:vmap-args" in perts:
+                return self.run_vmapped_inputs(rep, fn, st["key"], (chm, argdiffs), self.alt_update_inputs(st, perts, False), const=(tr,))
             return self.run_staged(rep, perts, fn, st["key"], tr, chm, argdiffs)
         if api in ("tr.edit", "tr.update"):
             fn = lambda k, t, r, ad: t.edit(k, r, ad)  # noqa: E731
@@ -797,7 +842,35 @@ class Session:
             fn = lambda k, t, r, ad: gf.edit(k, t, r, ad)  # noqa: E731
         else:
             fn = lambda k, t, r, ad: r.edit(k, t, ad)  # noqa: E731
+        if "stage:vmap-args" in perts and st["op"] == "update":
+            return self.run_vmapped_inputs(rep, fn, st["key"], (req, argdiffs), self.alt_update_inputs(st, perts, True), const=(tr,))
         return self.run_staged(rep, perts, fn, st["key"], tr, req, argdiffs)
+
+    def alt_update_inputs(self, st, perts, as_request):
+        """Inputs of the other batch elements of a vmapped update: other constraint
+        values at the same addresses, other values for the arguments that change."""
+        import random
+
+        from sim.texpr import support_value
+
+        old, new, enc, retag, fe, closure_level = self._edit_ctx
+
+        def alt(j):
+            r = random.Random(st["key"] * 13 + j)
+            cj = [[a, support_value(r, self.cons[tuple(a)])] for a, _ in st["constraint"]]
+            wrap, falses = self.mask_encoding(perts, st["constraint"], st["key"])
+            chm = build_chm(cj, self.cons, st.get("build", "set"), wrap, falses)
+            other = __import__("sim.gen", fromlist=["x"]).sample_args(r, self.node)
+            nj = [nw if a == nw else o2 for a, nw, o2 in zip(old, new, other)]
+            ad, _ = argdiffs_for(self.node, old, nj, enc, retag, trace_level=not closure_level, flag_enc=fe)
+            if not as_request:
+                return (chm, ad)
+            req = Update(chm)
+            if st.get("annotate"):
+                req = DiffAnnotate(req)
+            return (req, ad)
+
+        return alt
 
     def step_edit(self, rep, i, st, perts, enc):
         src = rep.slots.get(st["src"])
@@ -812,6 +885,7 @@ class Session:
         fe = self.flag_enc_of(src)
         argdiffs, changed = argdiffs_for(self.node, src.args, new_args, enc, retag, flag_enc=fe)
         self._closure_argdiffs, _ = argdiffs_for(self.node, src.args, new_args, enc, retag, trace_level=False, flag_enc=fe)
+        self._edit_ctx = (list(src.args), list(new_args), enc, retag, fe, False)
         try:
             req = self.make_request(st, perts, enc)
         except HarnessError:
